@@ -16,7 +16,7 @@ import CogentModel.Model.KV
 import CogentModel.Model.DataStore
 namespace CogentModel.DataStoreDict
 open CogentModel.KV
-open CogentModel.DataStore (Mode Op Str)
+open CogentModel.DataStore (Mode Op)
 
 /-- which store's naming / rejection policy the dictionary follows -/
 inductive Kind | directory | sqlite
@@ -64,6 +64,7 @@ def rejects (k : Kind) (sfx : Str) (d : Dict D) : Op D → Bool
   | .drop _ => d.mode = .r
   | .reopen _ => false
   | .observe => false
+  | .unlock => false
 
 def apply (k : Kind) (sfx : Str) (d : Dict D) : Op D → Dict D
   | .write id data =>
@@ -75,6 +76,7 @@ def apply (k : Kind) (sfx : Str) (d : Dict D) : Op D → Dict D
                 else { d with notCompleted := del d.notCompleted (ncName k id) }
   | .reopen m => { d with mode := m }
   | .observe => d
+  | .unlock => d
 
 /-- one-line semantics: a rejected operation is a no-op, otherwise `apply` -/
 def specStep (k : Kind) (sfx : Str) (d : Dict D) (op : Op D) : Dict D :=
